@@ -84,3 +84,14 @@ Definition sline_eqb (a : tcv * list Z) (b : sline) : bool :=
 Fixpoint list_eqb2 {A B} (e : A -> B -> bool) (a : list A) (b : list B) : bool :=
   match a, b with [], [] => true | x :: a', y :: b' => e x y && list_eqb2 e a' b' | _, _ => false end.
 Definition case_parse (k : scase) : bool := list_eqb2 sline_eqb (parsed_lines (k_lines (s_case k))) (s_lines k).
+
+(* ---- small streams written by hand (Findings/C08.v, Properties/C08.v examples) ---- *)
+(* a line: time code, tab, words *)
+Definition ln (tc ws : string) : string := (tc ++ String "009"%char ws)%string.
+(* the stream as S reads it, through M's own parser (labels, rate, words) *)
+Definition slines_of (ls : list string) : list sline :=
+  map (fun x : tcv * list Z => let '((h, m, s, f), r) := fst x in mkSL (is_df r) h m s f (snd x)) (parsed_lines ls).
+(* the first frame at which oracle (deviations, granularity, view) rejects M's own document; None = accepted *)
+Definition model_vs_S (v : dev) (gran view : Z) (ls : list string) : option Z :=
+  let sl := slines_of ls in
+  oracle v gran view sl (seen_rows false (to_model 0 (map text_of_string ls)) (frame_range sl)).
